@@ -2,7 +2,8 @@
    binary-linking lag.  A history is the list of the headers of transactions 1..n (transaction k at
    list index k-1):
      ID_k      = k
-     PrevAlh_k = Alh_{k-1}            (32 zero bytes for k = 1: inmemPrecommittedAlh of an empty store)
+     PrevAlh_k = Alh_{k-1}            (sha256 of the empty string for k = 1: `committedAlh := sha256.Sum256(nil)`
+                                      when ImmuStore opens an empty store)
      BlTxID_k  = b_k  for ANY non-decreasing b_k < k   (the store as it stands always has b_k = k-1;
                                       headers whose linking lags by more than one are admitted)
      BlRoot_k  = root of the append-only hash tree over the payloads Alh_1 .. Alh_{b_k}
@@ -42,7 +43,7 @@ Definition bl_root (hs : list txhdr) (b : N) : bytes :=
 Record wf_hist (hs : list txhdr) : Prop := {
   wf_valid : forall k h, tx_at hs k = Some h -> hdr_valid h = true;
   wf_id    : forall k h, tx_at hs k = Some h -> h_id h = k;
-  wf_first : forall h, tx_at hs 1 = Some h -> h_prevalh h = zeros32;
+  wf_first : forall h, tx_at hs 1 = Some h -> h_prevalh h = H [];
   wf_prev  : forall k h h', tx_at hs k = Some h -> tx_at hs (k + 1) = Some h' ->
                             h_prevalh h' = alh_v H h;
   wf_bl    : forall k h, tx_at hs k = Some h ->
@@ -63,7 +64,7 @@ Fixpoint wf_from (all : list txhdr) (k : N) (prev : bytes) (prevbl : N) (rest : 
       bytes_eqb (h_blroot h) (bl_root all (h_bltxid h)) &&
       wf_from all (k + 1) (alh_v H h) (h_bltxid h) r
   end.
-Definition wf_histb (hs : list txhdr) : bool := wf_from hs 1 zeros32 0 hs.
+Definition wf_histb (hs : list txhdr) : bool := wf_from hs 1 (H []) 0 hs.
 
 (* a transaction = header + entries; Eh is the root of the entry-digest tree (htree.BuildWith over
    TxEntryDigest of each entry, in order; a transaction has at least one entry) *)
